@@ -16,7 +16,7 @@ RULE = (
     "the distinct count is within 1 of the threshold."
 )
 ASSUMPTIONS = [
-    "the end-of-data verdict of a run aborted in raise mode is not judged",
+    "closing a run that raise mode aborted judges the rows that reached the checks up to and including the rejected row",
 ]
 OPS = ["<", "<=", "==", "!=", ">=", ">"]
 MODES = ["yield", "continue", "raise"]
@@ -98,6 +98,8 @@ def check_case(ctx, model, rows, mode):
         if expected is None:
             ctx.unjudged("row the field model does not judge")
             return
+    aborted = RM.expected_run(model, rows, rollback=strict, stop_at_first_rejection=True)
+    expected["end_after_abort"] = aborted["state"].end_verdict() if aborted is not None else None
     try:
         cid = gen.load_cid(model)
     except errors.InterfaceError as error:
@@ -122,7 +124,10 @@ def check_case(ctx, model, rows, mode):
     compare(first, errors, case, model, obs, expected, mode)
     if first.violations and strict:
         second = Collector(ctx, False)
-        compare(second, errors, case, model, obs, RM.expected_run(model, rows, sticky=True), mode)
+        sticky = RM.expected_run(model, rows, sticky=True)
+        sticky_aborted = RM.expected_run(model, rows, sticky=True, stop_at_first_rejection=True)
+        sticky["end_after_abort"] = sticky_aborted["state"].end_verdict()
+        compare(second, errors, case, model, obs, sticky, mode)
         if not second.violations:
             ctx.violation("C05:isunique:duplicate-of-rejected-row", case, "a row was rejected as duplicate of a row that a later-declared check had rejected (its key stays registered)",
                           expected=first.violations[0][3], observed=first.violations[0][4])
@@ -185,8 +190,9 @@ def compare(ctx, errors, case, model, obs, expected, mode):
             return
     # end-of-data verdict (complete passes only)
     if mode == "raise" and exp_err is not None:
-        ctx.unjudged("end-of-data verdict of a run aborted in raise mode")
-        return
+        # a run aborted at its first rejection: closing it judges the rows that reached the checks until then
+        ctx.count("end.judged-after-abort")
+        expected = dict(expected, end=expected["end_after_abort"])
     ctx.count("end.judged")
     if expected["end"] is not None and obs.end_error is None:
         ctx.violation("C05:distinct-count-not-enforced", case, "close() did not fail although the distinct count violates the comparison",
